@@ -138,6 +138,11 @@ func build(sc scenario) (func() []sched.Body, func() *state) {
 						st.closeEnd = append(st.closeEnd, t.Stamp())
 					}
 				})
+			case 'R':
+				// re-construct (Go API): closes the old Go channel and installs a fresh open one
+				bodies = append(bodies, func(t *sched.Thread) {
+					st.ch.Construct(nil, data.NewIntValue(sc.Cap))
+				})
 			case 'O':
 				bodies = append(bodies, func(t *sched.Thread) {
 					a := st.ch.IsClosed()
@@ -213,6 +218,31 @@ func check(sc scenario, x *sched.Exec, st *state) []failure {
 	}
 	if len(fs) > 0 {
 		return fs // delivery accounting is meaningless after a crash
+	}
+	for _, r := range sc.Roles {
+		if r == "R" {
+			// A re-construct discards what the old channel held, so delivery accounting does not
+			// apply; what must hold is that the fresh channel works: a value sent now is received.
+			if sc.Cap > 0 && !sc.Script {
+				// drain what the producers put into the fresh channel first (never block here)
+				for st.ch.Len() > 0 {
+					st.ch.Receive()
+				}
+				ok := st.ch.Send(data.NewIntValue(777))
+				got, rok := -1, false
+				if st.ch.Len() > 0 {
+					var v data.Value
+					v, rok = st.ch.Receive()
+					if iv, isInt := v.(*data.IntValue); rok && isInt {
+						got, _ = iv.AsInt()
+					}
+				}
+				if !ok || got != 777 {
+					add("fresh-channel-after-reconstruct", "reconstructed-channel-unusable", fmt.Sprintf("after Construct() ran concurrently with the other threads: Send(777)=%v, Receive()=%d,%v", ok, got, rok))
+				}
+			}
+			return fs
+		}
 	}
 	st.finish()
 	left := st.left
@@ -457,6 +487,11 @@ func scenarios(quick bool) []scenario {
 	add(-1, "C2", "X")
 	add(-1, "X", "O")
 	add(-1, "P1", "O")
+	add(-1, "C1", "R")
+	add(-1, "C2", "R")
+	add(-1, "P1", "R")
+	add(pb3, "P1", "C2", "R")
+	add(pb3, "C1", "C1", "R")
 	add(-1, "P1", "C2", "X")
 	add(pb3, "P2", "C3", "X")
 	add(pb3, "P1", "P1", "C2")
